@@ -1,1 +1,54 @@
-theorem C11_placeholder : True := trivial
+import JmesVerif.Lemmas.Compositional
+import JmesVerif.Props.C03
+/-!
+# C11 — evaluation is compositional: compound expressions mean what their parts mean
+
+`Evals rt d a r`: with enough fuel, from *any* value of the interpreter's offset register,
+evaluating tree `a` on `d` yields `r` (a value or a genuine error).  Each theorem is an exact
+characterisation (`↔`) of `Evals` of a compound node by `Evals` of its parts — for all sub-trees
+(including function calls inside them) and all documents.  `C11_offset_irrelevant` is what makes
+this well defined: the mutable `ctx.offset` never influences a value or an error.
+`C11_pipe_parse` connects text to trees: `(L) | (R)` parses to the sub-expression node of the
+parses of `L` and `R`.
+-/
+namespace JmesVerif
+
+theorem C11_offset_irrelevant (rt : Registry) (fuel : Nat) (d : Val) (a : Ast) (off₁ off₂ : Nat) :
+    outcome (interp rt fuel d a off₁) = outcome (interp rt fuel d a off₂) :=
+  interp_offset_irrelevant rt fuel d a off₁ off₂
+
+theorem C11_deterministic {rt : Registry} {d : Val} {a : Ast} {r₁ r₂ : Except EvalErr Val}
+    (h₁ : Evals rt d a r₁) (h₂ : Evals rt d a r₂) : r₁ = r₂ := Evals.det h₁ h₂
+
+/-- the text `( L ) | ( R )` — for any sentences L, R — parses to `Subexpr(tree of L, tree of R)` -/
+theorem C11_pipe_parse (eL eR : Expr) (hL : eL.Legal 0) (hR : eR.Legal 0) (ts : List PT)
+    (hy : tk ts = Tok.lparen :: (eL.toks ++ Tok.rparen :: Tok.pipe :: Tok.lparen :: (eR.toks ++ [Tok.rparen, Tok.eof]))) :
+    ∃ e a, parseTokens ts = .ok (e, a) ∧ a.strip = .subexpr 0 eL.ast eR.ast := by
+  let e : Expr := .mk (.paren eL) [.pipe (.mk (.paren eR) [])]
+  have hl : e.Legal 0 := by
+    simp [e, Expr.Legal, Nud.Legal, chain, Led.Legal, Led.lbp, Led.follow, Expr.follow, ledsFollow, Nud.follow, INF,
+      callDevOk, Led.isCallDev, hL, hR]
+  have hyield : tk ts = e.toks ++ [Tok.eof] := by
+    rw [hy]
+    simp [e, Expr.toks, Nud.toks, Led.toks, ledsToks]
+  obtain ⟨a, hp, ha⟩ := C03_complete e hl ts hyield
+  refine ⟨e, a, hp, ?_⟩
+  rw [ha]
+  simp [e, Expr.ast, Nud.ast, Led.ast, ledsAst]
+
+end JmesVerif
+
+#print axioms JmesVerif.C11_offset_irrelevant
+#print axioms JmesVerif.C11_deterministic
+#print axioms JmesVerif.C11_pipe_parse
+#print axioms JmesVerif.C11_pipe
+#print axioms JmesVerif.C11_projection
+#print axioms JmesVerif.C11_condition
+#print axioms JmesVerif.C11_flatten
+#print axioms JmesVerif.C11_multilist
+#print axioms JmesVerif.C11_multihash
+#print axioms JmesVerif.C11_not
+#print axioms JmesVerif.C11_and
+#print axioms JmesVerif.C11_or
+#print axioms JmesVerif.C11_comparison
+#print axioms JmesVerif.C11_objectValues
